@@ -15,6 +15,8 @@ hydrodynamic part.  The geometry factor k = geometry - 1 is an arbitrary real.
 import EPV.Gen.Cog19D
 import EPV.Spec.Euler1D
 import EPV.Lemmas.Euler1Db
+import EPV.Lemmas.HydroRobust
+import EPV.Lemmas.Bridge.Cog19
 import EPV.Tactics
 
 set_option linter.all false
@@ -33,16 +35,16 @@ theorem cog19_leaves : Cog19.okLeaves = [0, 1] := rfl
 theorem cog19_post_mass (p : Cog19.P) (r t : ℝ) :
     massRes (Cog19.L0.density p) (Cog19.L0.velocity p) (p.geometry - 1) r t = 0 := by
   unfold massRes dr dt
-  rw [(Cog19.L0.density_hasDerivAt_t p r t).deriv, (Cog19.L0.density_hasDerivAt_r p r t).deriv,
-    (Cog19.L0.velocity_hasDerivAt_r p r t).deriv]
+  epv_hydro_rw_derivs [Cog19.L0.density_hasDerivAt_t p r t, Cog19.L0.density_hasDerivAt_r p r t,
+    Cog19.L0.velocity_hasDerivAt_r p r t]
   simp only [epv_deriv, epv_leaf]
   ring
 
 theorem cog19_post_momentum (p : Cog19.P) (r t : ℝ) :
     momResT (Cog19.L0.density p) (Cog19.L0.velocity p) (Cog19.L0.temperature p) p.Gamma r t = 0 := by
   unfold momResT dr dt
-  rw [(Cog19.L0.velocity_hasDerivAt_t p r t).deriv, (Cog19.L0.velocity_hasDerivAt_r p r t).deriv,
-    (Cog19.L0.density_hasDerivAt_r p r t).deriv, (Cog19.L0.temperature_hasDerivAt_r p r t).deriv]
+  epv_hydro_rw_derivs [Cog19.L0.velocity_hasDerivAt_t p r t, Cog19.L0.velocity_hasDerivAt_r p r t,
+    Cog19.L0.density_hasDerivAt_r p r t, Cog19.L0.temperature_hasDerivAt_r p r t]
   simp only [epv_deriv, epv_leaf]
   ring
 
@@ -51,8 +53,8 @@ theorem cog19_post_energy (p : Cog19.P) (c a lam0 α β r t : ℝ) :
       p.Gamma p.gamma (p.geometry - 1) c a lam0 α β r t = 0 := by
   rw [energyResT_of_T_const_r _ _ _ _ _ _ _ _ _ _ _ _ _ (fun x => by simp only [epv_leaf])]
   unfold energyHydroT dr dt
-  rw [(Cog19.L0.temperature_hasDerivAt_t p r t).deriv, (Cog19.L0.temperature_hasDerivAt_r p r t).deriv,
-    (Cog19.L0.velocity_hasDerivAt_r p r t).deriv]
+  epv_hydro_rw_derivs [Cog19.L0.temperature_hasDerivAt_t p r t, Cog19.L0.temperature_hasDerivAt_r p r t,
+    Cog19.L0.velocity_hasDerivAt_r p r t]
   simp only [epv_deriv, epv_leaf]
   ring
 
@@ -64,15 +66,12 @@ theorem cog19_pre_domain (p : Cog19.P) (r t : ℝ) (hr : 0 < r) (ht : 0 ≤ t) (
 
 theorem cog19_pre_mass (p : Cog19.P) (r t : ℝ) (hr : 0 < r) (hb : 0 < r - p.u0 * t) :
     massRes (Cog19.L1.density p) (Cog19.L1.velocity p) (p.geometry - 1) r t = 0 := by
-  have hq : 0 < (r - p.u0 * t) / r := div_pos hb hr
   unfold massRes dr dt
-  rw [(Cog19.L1.density_hasDerivAt_t p r t hq).deriv, (Cog19.L1.density_hasDerivAt_r p r t hr.ne' hq).deriv,
-    (Cog19.L1.velocity_hasDerivAt_r p r t).deriv]
+  epv_hydro_rw_derivs [Cog19.L1.density_hasDerivAt_t p r t, Cog19.L1.density_hasDerivAt_r p r t,
+    Cog19.L1.velocity_hasDerivAt_r p r t]
   simp only [epv_deriv, epv_leaf]
-  have hp := Real.rpow_pos_of_pos hq (p.geometry - 1)
-  generalize ((r - p.u0 * t) / r) ^ (p.geometry - 1) = q at hp ⊢
-  have hb' := hb.ne'
-  field_simp
+  epv_hydro_gen_rpow
+  epv_hydro_field_simp
   ring
 
 example : ∃ p : Cog19.P, ∃ r t : ℝ, 0 < r ∧ 0 < r - p.u0 * t :=
@@ -81,8 +80,8 @@ example : ∃ p : Cog19.P, ∃ r t : ℝ, 0 < r ∧ 0 < r - p.u0 * t :=
 theorem cog19_pre_momentum (p : Cog19.P) (r t : ℝ) :
     momResT (Cog19.L1.density p) (Cog19.L1.velocity p) (Cog19.L1.temperature p) p.Gamma r t = 0 := by
   unfold momResT dr dt
-  rw [(Cog19.L1.velocity_hasDerivAt_t p r t).deriv, (Cog19.L1.velocity_hasDerivAt_r p r t).deriv,
-    (Cog19.L1.temperature_hasDerivAt_r p r t).deriv]
+  epv_hydro_rw_derivs [Cog19.L1.velocity_hasDerivAt_t p r t, Cog19.L1.velocity_hasDerivAt_r p r t,
+    Cog19.L1.temperature_hasDerivAt_r p r t]
   simp only [epv_deriv, epv_leaf]
   ring
 
@@ -91,8 +90,8 @@ theorem cog19_pre_energy (p : Cog19.P) (c a lam0 α β r t : ℝ) :
       p.Gamma p.gamma (p.geometry - 1) c a lam0 α β r t = 0 := by
   rw [energyResT_of_T_const_r _ _ _ _ _ _ _ _ _ _ _ _ _ (fun x => by simp only [epv_leaf])]
   unfold energyHydroT dr dt
-  rw [(Cog19.L1.temperature_hasDerivAt_t p r t).deriv, (Cog19.L1.temperature_hasDerivAt_r p r t).deriv,
-    (Cog19.L1.velocity_hasDerivAt_r p r t).deriv]
+  epv_hydro_rw_derivs [Cog19.L1.temperature_hasDerivAt_t p r t, Cog19.L1.temperature_hasDerivAt_r p r t,
+    Cog19.L1.velocity_hasDerivAt_r p r t]
   simp only [epv_deriv, epv_leaf]
   ring
 
@@ -103,12 +102,11 @@ theorem cog19_tree_post (p : Cog19.P) (r t : ℝ) (h : r < (-(p.gamma - 1)) * p.
     AgreeNear (Cog19.density p) (Cog19.L0.density p) r t
       ∧ AgreeNear (Cog19.velocity p) (Cog19.L0.velocity p) r t
       ∧ AgreeNear (Cog19.temperature p) (Cog19.L0.temperature p) r t := by
-  have hx : ∀ᶠ x in 𝓝 r, Cog19.c0 p x t := by
-    simp only [epv_cond]; exact eventually_lt_nhds h
+  have hx : ∀ᶠ x in 𝓝 r, Cog19.c0 p x t :=
+    (eventually_lt_nhds h).mono fun x hx => (EPV.Bridge.cog19_c0_iff p x t).2 hx
   have hs : ∀ᶠ s in 𝓝 t, Cog19.c0 p r s := by
-    simp only [epv_cond]
     have hc : ContinuousAt (fun s : ℝ => (-(p.gamma - 1)) * p.u0 * s / 2) t := by fun_prop
-    exact continuousAt_const.eventually_lt hc h
+    exact (continuousAt_const.eventually_lt hc h).mono fun s hs => (EPV.Bridge.cog19_c0_iff p r s).2 hs
   exact ⟨agreeNear_of_cond (fun x s hc => by simp only [epv_tree, if_pos hc]) hx hs,
     agreeNear_of_cond (fun x s hc => by simp only [epv_tree, if_pos hc]) hx hs,
     agreeNear_of_cond (fun x s hc => by simp only [epv_tree, if_pos hc]) hx hs⟩
@@ -118,13 +116,11 @@ theorem cog19_tree_pre (p : Cog19.P) (r t : ℝ) (h : (-(p.gamma - 1)) * p.u0 * 
     AgreeNear (Cog19.density p) (Cog19.L1.density p) r t
       ∧ AgreeNear (Cog19.velocity p) (Cog19.L1.velocity p) r t
       ∧ AgreeNear (Cog19.temperature p) (Cog19.L1.temperature p) r t := by
-  have hx : ∀ᶠ x in 𝓝 r, ¬ Cog19.c0 p x t := by
-    simp only [epv_cond, not_lt]
-    exact (eventually_gt_nhds h).mono fun x hx => hx.le
+  have hx : ∀ᶠ x in 𝓝 r, ¬ Cog19.c0 p x t :=
+    (eventually_gt_nhds h).mono fun x hx => (EPV.Bridge.cog19_not_c0_iff p x t).2 hx.le
   have hs : ∀ᶠ s in 𝓝 t, ¬ Cog19.c0 p r s := by
-    simp only [epv_cond, not_lt]
     have hc : ContinuousAt (fun s : ℝ => (-(p.gamma - 1)) * p.u0 * s / 2) t := by fun_prop
-    exact (hc.eventually_lt continuousAt_const h).mono fun s hs => hs.le
+    exact (hc.eventually_lt continuousAt_const h).mono fun s hs => (EPV.Bridge.cog19_not_c0_iff p r s).2 hs.le
   exact ⟨agreeNear_of_cond (c := fun x s => ¬ Cog19.c0 p x s) (fun x s hc => by simp only [epv_tree, if_neg hc]) hx hs,
     agreeNear_of_cond (c := fun x s => ¬ Cog19.c0 p x s) (fun x s hc => by simp only [epv_tree, if_neg hc]) hx hs,
     agreeNear_of_cond (c := fun x s => ¬ Cog19.c0 p x s) (fun x s hc => by simp only [epv_tree, if_neg hc]) hx hs⟩
